@@ -19,7 +19,9 @@ Model of the response-handling half of every method emitted by internal/restclie
 
 Externals: `http.Client.Do` is an input (`Transport`): either a response with a status and a body
 class, or a fault; `encoding/json` is the function `decodeOf` on body classes (assumption, checked
-by the correspondence on every run): empty ⇒ io.EOF, valid ⇒ ok, malformed / wrong-typed ⇒ error.
+by the correspondence on every run): empty ⇒ io.EOF, valid ⇒ ok, malformed / wrong-typed ⇒ error,
+broken (Read fails in transit) ⇒ that error. The error arms read the body with `io.ReadAll` and ignore
+its error: the message quotes whatever arrived.
 -/
 namespace ShootVerif.RestCall
 
@@ -31,9 +33,10 @@ inductive Shape where
   | none     -- `(*http.Response, error)` only
   deriving Repr, DecidableEq, Inhabited
 
-/-- body classes of the property's quantifier -/
+/-- body classes of the property's quantifier, and `broken`: the transfer of the body fails after the
+    response headers (the body's Read returns an error that is not io.EOF, possibly after some bytes) -/
 inductive Body where
-  | empty | valid | malformed | wrongtype
+  | empty | valid | malformed | wrongtype | broken
   deriving Repr, DecidableEq, Inhabited
 
 inductive Fault where
@@ -92,7 +95,8 @@ def switchErr (s : Int) : Option Err :=
   | some k => some ⟨k, true, false⟩
   | none => none
 
-/-- `json.NewDecoder(body).Decode(&r_)` on the four body classes (external, assumed) -/
+/-- `json.NewDecoder(body).Decode(&r_)` on the body classes (external, assumed); a body whose Read fails
+    before a complete JSON value has arrived makes Decode return that Read error -/
 inductive Dec where
   | ok | eof | error
   deriving Repr, DecidableEq
@@ -102,6 +106,7 @@ def decodeOf : Body → Dec
   | .valid => .ok
   | .malformed => .error
   | .wrongtype => .error
+  | .broken => .error
 
 /-- the `nil` in front of `resp_, err` (ErrReturnMap = "nil, " × (n-1) + "err"): absent when n = 2 -/
 def nilResult : Shape → Res
